@@ -86,7 +86,7 @@ func g9Row(c *Ctx, name, short string, fi *FuncInfo, in *Interp, arg *VOpaque, r
 		if strings.Contains(d.Sym, "MethodInputParam(") || strings.HasSuffix(d.Fn, "MethodInputParam") || strings.HasSuffix(d.Fn, "hasEqualMethod") || strings.Contains(d.Sym, "hasEqualMethod(") {
 			g9AsksMethod[name] = true
 			// a type with its own Equal method must be refused
-			if b, ok := res.(VBool); ok && d.Choice == 0 && strings.HasSuffix(d.Sym, "!=nil") && b.Known && b.V && strings.Contains(d.Sym, "("+arg.Origin+",)") {
+			if b, ok := res.(VBool); ok && d.Choice == 0 && (strings.HasSuffix(d.Sym, "!=nil") || strings.HasSuffix(d.Sym, "#1")) && b.Known && b.V && strings.Contains(d.Sym, "("+arg.Origin+",)") {
 				c.Rep.fail(Finding{Rule: "G9", Key: "G9|" + name + "|accepts-type-with-equal-method", Where: []string{c.Repo.pos(fi.Decl.Pos())},
 					Msg: name + " accepts a type that declares its own Equal method: `==` would be emitted for it and the method bypassed"})
 			}
@@ -688,9 +688,53 @@ type methodSpec struct {
 	kind     types.BasicKind // types.Invalid: no result kind to test
 }
 
+// methodPredicate: the function of a plugin that looks for the type's own method of the given name — by its documented
+// name, or (after a rename) the one function of the plugin that walks NumMethods() and compares Name() with that name.
+func methodPredicate(r *Repo, key, method string) *FuncInfo {
+	if fi := r.lookup(key); fi != nil {
+		return fi
+	}
+	plugin := key[:strings.Index(key, ".")]
+	var found []*FuncInfo
+	for _, fi := range r.sortedFuncs() {
+		if !strings.HasPrefix(funcKey(fi.Fn), plugin+".") || fi.Decl.Recv != nil {
+			continue
+		}
+		walks, names := false, false
+		ast.Inspect(fi.Decl.Body, func(n ast.Node) bool {
+			switch x := n.(type) {
+			case *ast.SelectorExpr:
+				if x.Sel.Name == "NumMethods" {
+					walks = true
+				}
+			case *ast.BasicLit:
+				if x.Value == strconv.Quote(method) {
+					names = true
+				}
+			}
+			return true
+		})
+		if walks && names {
+			found = append(found, fi)
+		}
+	}
+	if len(found) == 1 {
+		return found[0]
+	}
+	return nil
+}
+
+// methodPredicateName: the bare name of that function (what decisions and predicate calls are recorded under).
+func methodPredicateName(r *Repo, key, method string) string {
+	if fi := methodPredicate(r, key, method); fi != nil {
+		return fi.Fn.Name()
+	}
+	return key[strings.Index(key, ".")+1:]
+}
+
 func g9Methods(c *Ctx, specs ...methodSpec) {
 	for _, sp := range specs {
-		fi := c.Repo.lookup(sp.fn)
+		fi := methodPredicate(c.Repo, sp.fn, sp.method)
 		if fi == nil {
 			c.Rep.fail(Finding{Rule: "G9", Key: "G9|" + sp.fn + "|missing", Kind: "undecided", Msg: "method predicate " + sp.fn + " not found"})
 			continue
@@ -751,6 +795,14 @@ func g9Methods(c *Ctx, specs ...methodSpec) {
 			case *VPtr:
 				yes = true
 			case VNil:
+			case VTuple:
+				// (parameter type, found): the last result says whether the method was found
+				yes = true
+				if len(v.Vals) > 0 {
+					if b, ok := v.Vals[len(v.Vals)-1].(VBool); ok && b.Known && !b.V {
+						yes = false
+					}
+				}
 			default:
 				yes = true
 			}
